@@ -329,7 +329,7 @@ fn check3(rng: &mut Rng) {
 
 pub fn run(rng: &mut Rng, n: usize) {
     for _ in 0..n {
-        check2(rng);
-        check3(rng);
+        case("curve.at_length", "c01.library_call_panics", || check2(rng));
+        case("curve.at_length", "c01.library_call_panics", || check3(rng));
     }
 }
